@@ -1882,9 +1882,24 @@ where
 
     fn unexpected_start_tag_in_foreign_content(&self, tag: Tag) -> ProcessResult<Handle> {
         self.unexpected(&tag);
-        while !self.current_node_in(|n| {
-            *n.ns == ns!(html) || mathml_text_integration_point(n) || svg_html_integration_point(n)
-        }) {
+        loop {
+            // Stop at an element in the HTML namespace, a MathML text integration point or an
+            // HTML integration point; the latter includes annotation-xml with a suitable encoding.
+            let done = {
+                let current = self.current_node();
+                let name = self.sink.elem_name(&current);
+                let n = name.expanded();
+                *n.ns == ns!(html)
+                    || mathml_text_integration_point(n)
+                    || svg_html_integration_point(n)
+                    || (n == expanded_name!(mathml "annotation-xml")
+                        && self
+                            .sink
+                            .is_mathml_annotation_xml_integration_point(&current))
+            };
+            if done {
+                break;
+            }
             self.pop();
         }
         self.step(self.mode.get(), Token::Tag(tag))
